@@ -8,6 +8,7 @@
   never as a script result.  The frame depth is NOT the fuel: it is `Frame.depth`, limit 300, exactly as in the code.
 -/
 import IcingaModel.C15.Natives
+import IcingaModel.C15.Literal
 
 namespace Icinga.C15
 
